@@ -353,10 +353,10 @@ func c16SchemaSources(rng *rand.Rand, i int) ([]string, string) {
 		}
 		return sdls, "federation"
 	case 1:
-		o := gen.RichOptions{MaxWrap: 5, IfaceOfIface: true, Directives: true, Descriptions: true, Deprecations: true, ArgDefaults: true, InputDefaults: true, Newer: true}
+		o := gen.RichOptions{MaxWrap: 5, OddNames: true, IfaceOfIface: true, Directives: true, Descriptions: true, Deprecations: true, ArgDefaults: true, InputDefaults: true, Newer: true}
 		return []string{gen.RichSchema(rng, o)}, "rich_single_service"
 	}
-	o := gen.RichOptions{MaxWrap: 3, Directives: false, Descriptions: true, Deprecations: true, ArgDefaults: true, InputDefaults: true}
+	o := gen.RichOptions{MaxWrap: 3, OddNames: true, Directives: false, Descriptions: true, Deprecations: true, ArgDefaults: true, InputDefaults: true}
 	return []string{gen.RichSchema(rng, o), "type Query { extra: Extra }\ntype Extra { n: Int @deprecated }\n"}, "rich_plus_small"
 }
 
